@@ -474,6 +474,32 @@ static inline void L0_fresh_local(const void *p, uint64_t bytes) {
   if (g_tok_on) __CPROVER_assume(g_tok_obj != OBJ(p));
   g_tmp_obj = OBJ(p); g_tmp_has = 0;
 }
+/* the 'basic allocator' concept (void *allocate(size_t), void *reallocate(void *, size_t old, size_t new), void deallocate(void *, size_t)):
+ * exact-size semantics -- a block is handed back / reallocated with the byte size it was obtained with */
+static inline void *L0_SimpleAllocator__allocate__u64(void *a, uint64_t bytes) {
+  (void)a;
+  void *p = L0_malloc(bytes);
+  if (p == (void *)0) { l0_exc = L0_EXC_BAD_ALLOC; return (void *)0; }
+  return p;
+}
+static inline void L0_SimpleAllocator__deallocate__pv_u64(void *a, void *p, uint64_t bytes) {
+  (void)a;
+  if (p != (void *)0 && g_blk_obj == OBJ(p))
+    L0_assert(g_blk_bytes == bytes, "C06: a block is handed back with the size it was obtained (or last reallocated) with");
+  L0_free(p);
+}
+static inline void *L0_SimpleAllocator__reallocate__pv_u64_u64(void *a, void *p, uint64_t oldb, uint64_t newb) {
+  (void)a;
+  if (p != (void *)0 && g_blk_obj == OBJ(p))
+    L0_assert(g_blk_bytes == oldb, "C06: reallocate is given the true old size of the block");
+  else if (p == (void *)0)
+    L0_assert(oldb == 0, "C06: reallocate of no block is given the old size 0");
+  void *q = L0_realloc(p, newb);
+  if (q == (void *)0) { l0_exc = L0_EXC_BAD_ALLOC; return (void *)0; }
+  return q;
+}
+#define L0_SimpleAllocator__reallocate__pE_u64_u64 L0_SimpleAllocator__reallocate__pv_u64_u64
+#define L0_SimpleAllocator__deallocate__pE_u64 L0_SimpleAllocator__deallocate__pv_u64
 static inline void L0_terminate(void) { L0_assert(0, "C13 C17: no exception escapes a noexcept function (std::terminate)"); }
 static inline void L0_missing_return(void) { L0_assert(0, "C15 C16: control reaches the end of a non-void function"); }
 
